@@ -29,7 +29,7 @@ static char PATHS[2][64]; static int CHILD[2];   /* path and pid keys (created o
 
 /* messages */
 #define MAXMSG 64
-typedef struct { int sender, topic, sys, autofree; const void *payload; int owed, freed, used; const m_mod_t *sender_ptr; int sender_gen; } msg_t;
+typedef struct { int sender, topic, sys, autofree; const void *payload; int owed, freed, used; const m_mod_t *sender_ptr; int sender_gen; int may_vanish, rc_neg, delivered; } msg_t;   /* may_vanish: copies that may disappear because a pipe write was refused (full mailbox) */
 static msg_t MSG[MAXMSG]; static int nmsg;
 static char PAY[MAXMSG];                  /* plain payload cells (identity) */
 
